@@ -295,6 +295,15 @@ pub fn run_backend<B: Backend>(rec: &mut Recorder, progress: &mut std::fs::File,
                         ("upper", hdr.to_uppercase()), ("doubled", format!("{hdr}{hdr}"))] {
             go(rec, parser, format!("{h}{}", crate::b64::enc(&rng.bytes(48))), json!({"header":hc}));
         }
+        // multi-byte characters straddling every byte offset around the end of the header
+        for cut in 0..=4usize.min(hdr.len()) {
+            for ch in ["\u{e9}", "\u{20ac}", "\u{1f600}"] {
+                let t = format!("{}{}{}", &hdr[..hdr.len() - cut], ch, crate::b64::enc(&rng.bytes(33)));
+                go(rec, parser, t, json!({"header":"multibyte-straddle","cut":cut}));
+                let t = format!("{}{}", &hdr[..hdr.len() - cut], ch);
+                go(rec, parser, t, json!({"header":"multibyte-straddle-end","cut":cut}));
+            }
+        }
         // base64 classes
         for (bc, body) in [("padding", "QUJD=".to_string()), ("std-alphabet", "ab+/".to_string()), ("whitespace", "QUJD QUJD".to_string()), ("len1mod4", "QUJDQ".to_string()),
                            ("noncanonical", "QUJDQR".to_string()), ("nul", "QU\0D".to_string()), ("unicode", "QUJDé".to_string()), ("dots", "QUJD.QUJD.QUJD".to_string())] {
